@@ -99,6 +99,11 @@ def run(sc, transforms):
     # with transforms, every second scenario hands the sections over as validated objects (and keeps them for a second use)
     as_objects = transforms is not None and (sum(sc["x"]) + sc["l"] + sc["a"][1]) % 2 == 0
     config = user_config(sc, as_objects)
+    if transforms is not None and transforms.variables is not None and "linear_constraints" in config:
+        # the transform object served another configuration before (one linear row as well, other coefficients)
+        earlier = user_config(sc)
+        earlier["linear_constraints"] = {"coefficients": [[7.0, -3.0]], "lower_bounds": [-1.0], "upper_bounds": [5.0]}
+        EnOptConfig.model_validate(earlier, context=transforms)
     if as_objects:
         EnOptConfig.model_validate(config, context=transforms)
     code, outcome = outcome_of(lambda: plan.run_step(step, config=config, transforms=transforms))
